@@ -122,6 +122,10 @@ class _CenterManifoldDynamicsService(_DynamicsServiceBase):
         :class:`~hiten.system.hamiltonian.Hamiltonian`
             The Hamiltonian.
         """
+        # Requesting another degree switches the manifold to it; do so whether or not
+        # the Hamiltonian itself is already cached.
+        if degree != self._degree:
+            self.degree = degree
         cache_key = self.make_key("hamiltonian", degree)
 
         def _factory():
